@@ -50,6 +50,8 @@ pub struct SessCfg {
     pub shadow_mount: bool,
     /// record every device write with payload + the durable file set after every call (C14)
     pub journal: bool,
+    /// foreign images: diagnostics present before the first call (legal residue) are not held against the crate
+    pub tolerate_baseline_diags: bool,
 }
 
 impl SessCfg {
@@ -66,6 +68,7 @@ impl SessCfg {
             budget: None,
             shadow_mount: false,
             journal: false,
+            tolerate_baseline_diags: false,
         }
     }
     pub fn on(&self, p: &str) -> bool {
@@ -132,15 +135,29 @@ pub fn enc_dt(dt: fatfs::DateTime) -> (u16, u16, u8) {
     (enc_date(dt.date), (t.hour << 11) | (t.min << 5) | (t.sec / 2), ((t.sec % 2) * 100 + t.millis / 10) as u8)
 }
 
+/// does a listed entry carry the reference name `want`? (entries without a long name: ASCII case is not compared,
+/// the display case depends on NT flags that only some builds can apply)
+pub fn name_matches(l: &Listed, want: &[u16]) -> bool {
+    if l.has_lfn {
+        l.name == want
+    } else {
+        l.name.len() == want.len() && l.name.iter().zip(want.iter()).all(|(a, b)| a == b || (*a < 128 && *b < 128 && (*a as u8).eq_ignore_ascii_case(&(*b as u8))))
+    }
+}
+
 pub fn listed_of(e: &FEntry<'_>) -> Listed {
     let lfn = e.long_file_name_as_ucs2_units();
     let short = e.short_file_name_as_bytes().to_vec();
     let (cd, ct, ctenth) = enc_dt(e.created());
     let (md, mt, _) = enc_dt(e.modified());
+    #[cfg(not(feature = "v_noalloc"))]
+    let short_units: Vec<u16> = e.file_name().encode_utf16().collect();
+    #[cfg(feature = "v_noalloc")]
+    let short_units: Vec<u16> = short.iter().map(|b| if *b < 0x80 { u16::from(*b) } else { 0xFFFD }).collect();
     Listed {
         name: match lfn {
             Some(u) => u.to_vec(),
-            None => short.iter().map(|b| if *b < 0x80 { u16::from(*b) } else { 0xFFFD }).collect(),
+            None => short_units,
         },
         has_lfn: lfn.is_some(),
         short,
@@ -154,6 +171,7 @@ pub fn listed_of(e: &FEntry<'_>) -> Listed {
             adate: enc_date(e.accessed()),
             mtime: mt,
             mdate: md,
+            raw: Vec::new(),
         },
     }
 }
@@ -223,6 +241,10 @@ pub struct Sess<'c> {
     pub history: Vec<Op>,
     pub exhausted: bool,
     pub journal: Vec<JOp>,
+    /// node renamed/moved by the current op
+    pub renamed: Option<usize>,
+    /// structural diagnostics already present in a foreign image before the session touched it
+    pub baseline_diags: Option<std::collections::HashSet<String>>,
 }
 
 /// One monitored call as seen by the crash-consistency checker (C14).
@@ -548,6 +570,8 @@ pub fn run_session(cfg: &SessCfg, img0: &Image, vol_bytes: u64, cfg_class: u64, 
         history: Vec::new(),
         exhausted: false,
         journal: Vec::new(),
+        renamed: None,
+        baseline_diags: None,
     };
     if cfg.journal {
         s.dev.set_logging(true, true);
